@@ -381,7 +381,7 @@ def obligations(tier):
         lv = 2 if (n == 1 or (n == 2 and tier == 'thorough')) else 1
         out.append(Obligation('check-to-range[%d]' % n, ob_checks(n, lv, 2), dict(checks=n, version_len=lv, x_len=2, alphabet='0-9ab.'), labels=('done',), max_paths=5000000))
     for n in (1,) if tier == 'quick' else (1, 2):
-        out.append(Obligation('check-to-range-start[%d]' % n, ob_checks_start(n, 1, 1 if tier == 'quick' else 2, '019a.' if tier == 'quick' else '0123456789ab.'), dict(start='built from 2 checks', checks=n, version_len=1, x_len=1 if tier == 'quick' else 2, alphabet='019a.' if tier == 'quick' else '0-9ab.'), labels=('done',), max_paths=5000000))
+        out.append(Obligation('check-to-range-start[%d]' % n, ob_checks_start(n, 1, 1 if (tier == 'quick' or n == 2) else 2, '019a.' if (tier == 'quick' or n == 2) else '0123456789ab.'), dict(start='built from 2 checks', checks=n, version_len=1, x_len=1 if (tier == 'quick' or n == 2) else 2, alphabet='019a.' if (tier == 'quick' or n == 2) else '0-9ab.'), labels=('done',), max_paths=5000000))
     out.append(Obligation('if-narrowing', ob_if_narrowing(tier != 'quick'), dict(chain='if / elif / else, probe in every block', clause='if: vc | not vc | B | vc and B | B and vc | vc or B | B or vc | vc and vc | vc or vc; elif: vc | not vc | B',
                           version_test="symbolic operator (>= < ==) and version [0-2].(0|12.99); running version 1.12.99 (coredata.version)", project_requirement='>=0.5[05]'),
                           labels=('block1', 'block2', 'block3'), max_paths=3000000))
